@@ -84,6 +84,11 @@ func (b *Buffered[T]) Front() *T {
 // the ring has less entries the twice the buffer size, it will shrink by the
 // buffer size.
 func (b *Buffered[T]) RemoveFront() *T {
+	if b.end == 0 {
+		// Nothing to remove: keep the ring untouched, like Front on an empty ring.
+		return nil
+	}
+
 	b.ring.Value = nil
 	b.ring = b.ring.Next()
 
